@@ -423,7 +423,8 @@ def _inputs(kind, variant=0):
 def _sites(kind):
     s = ['ctor']
     if kind == 'empty':
-        s += ['filter', 'collapse', 'errcheck']
+        s += ['filter', 'collapse', 'errcheck', 'remove_empty', 'subsample',
+              'partition']
     if kind in ('obsdup', 'sampdup'):
         s += ['update_ids']
     return s
@@ -450,6 +451,22 @@ def _call_site(ctx, kind, site, trigger, variant=0):
                 [], [])
         return (lambda: base.collapse(lambda i, m: 'g', norm=False)), (
             ['o1', 'o2'], ['s1', 's2'])
+    if site in ('remove_empty', 'subsample', 'partition'):
+        # operations that end with nothing left report it (one offending
+        # table per internal step: the count is the library's business)
+        zero = Table(np.zeros((2, 2)), ['o1', 'o2'], ['s1', 's2'])
+        src = zero if trigger else base
+        how = variant % 3
+        if site == 'remove_empty':
+            ax = ['whole', 'sample', 'observation'][how]
+            return (lambda: src.remove_empty(axis=ax,
+                                             inplace=bool(variant % 2))), None
+        if site == 'subsample':
+            if how == 0:
+                return (lambda: base.subsample(100 if trigger else 2)), None
+            return (lambda: src.subsample(3, with_replacement=True)), None
+        return (lambda: list(src.partition(lambda i, m: 'a',
+                                           remove_empty=True))), None
     if site == 'errcheck':
         if trigger:
             with ctx.err.errstate(empty='ignore'):
@@ -526,6 +543,16 @@ def run_reaction(ctx, r, index):
                 exp['callbacks'] = 1
         else:
             ctx.count('reaction_clean_inputs')
+        if site in ('remove_empty', 'subsample', 'partition') and trigger:
+            # one or more identical reactions (see _call_site)
+            if obs['warnings'] and set(obs['warnings']) == set(
+                    exp['warnings']):
+                obs['warnings'] = exp['warnings']
+            if exp['printed'] and obs['printed'] and \
+                    obs['printed'].replace(exp['printed'], '') == '':
+                obs['printed'] = exp['printed']
+            if exp['callbacks'] == 1 and obs['callbacks'] >= 1:
+                obs['callbacks'] = 1
         if site == 'collapse' and trigger:
             # collapse checks the receiver and then constructs the (equally
             # empty) result, whose constructor checks again: two offending
@@ -542,7 +569,7 @@ def run_reaction(ctx, r, index):
                 'kind=%s state=%s %s at %s: observed %r, expected %r' % (
                     kind, state, 'triggering' if trigger else 'clean', site,
                     obs, exp))
-        if trigger and state == 'call':
+        if trigger and state == 'call' and exp_ids is not None:
             t = calls[0]
             if isinstance(t, tuple):
                 raise Violation('C20/callback-wrong-kind',
